@@ -124,14 +124,4 @@ def run(rep, info, model, tier, seed):
 
 
 def replay(body):
-    sc = fam.unjson_sc(body["scenario"])
-    sc.setdefault("_auto", sc["cfg"]["auto_pong"])
-    sc.setdefault("_tail", "other")
-    sc.setdefault("_completed", [])
-    r = simnet.run_impl(sc)
-    tr = simnet.canon_trace(r.trace)
-    res = oracle(sc, tr, dict(escaped=r.escaped))
-    for it in tr[:60]:
-        print(it)
-    print("REPLAY:", ("VIOLATION reproduced: %s" % res[0]) if res else "property holds on this input")
-    return 1 if res else 0
+    return fam.replay_generic(body, {"C14:pings-anywhere": oracle}, show=60)
